@@ -210,31 +210,65 @@ func init() {
 			nilable := mayReturnNil(pkgFns)
 			n := 0
 			for _, fn := range pkgFns {
+				// values that may be nil: results of nilable helpers, and phis fed by one on an unguarded edge
+				nv := map[ssa.Value]string{}
 				EachInstr(fn, func(in ssa.Instruction) {
-					c, ok := in.(*ssa.Call)
-					if !ok {
-						return
+					if c, ok := in.(*ssa.Call); ok {
+						if callee := staticCallee(c); callee != nil {
+							if why, isN := nilable[callee]; isN {
+								nv[c] = FnName(callee) + " " + why
+							}
+						}
 					}
-					callee := staticCallee(c)
-					why, isN := nilable[callee]
-					if !isN || c.Referrers() == nil {
-						return
+				})
+				for changed := true; changed; {
+					changed = false
+					EachInstr(fn, func(in ssa.Instruction) {
+						phi, ok := in.(*ssa.Phi)
+						if !ok || nv[phi] != "" {
+							return
+						}
+						for i, e := range phi.Edges {
+							if why, isN := nv[e]; isN && !nonNilGuarded(phi.Block().Preds[i], e) {
+								// the edge itself may still carry the branch condition e != nil
+								ok2 := false
+								for _, g := range expand(edgeGuards(phi.Block().Preds[i], phi.Block()), 2) {
+									if bo, isB := g.Cond.(*ssa.BinOp); isB && (bo.X == e || bo.Y == e) && (isNilConst(bo.X) || isNilConst(bo.Y)) {
+										if (bo.Op == token.NEQ && g.Pol) || (bo.Op == token.EQL && !g.Pol) {
+											ok2 = true
+										}
+									}
+								}
+								if !ok2 {
+									nv[phi] = why
+									changed = true
+								}
+							}
+						}
+					})
+				}
+				for v, why := range nv {
+					if v.Referrers() == nil {
+						continue
 					}
-					// forwarding the result as one's own result makes this function nilable too (handled above)
-					for _, ref := range *c.Referrers() {
+					for _, ref := range *v.Referrers() {
 						use := ""
 						switch u := ref.(type) {
 						case *ssa.FieldAddr:
-							if u.X == ssa.Value(c) {
+							if u.X == v {
 								use = "field access"
 							}
 						case ssa.CallInstruction:
 							if cn := CalleeName(u); !strings.HasPrefix(cn, "builtin:") {
 								for _, a := range u.Common().Args {
-									if a == ssa.Value(c) {
+									if a == v {
 										use = "argument of " + shortCallee(u)
 									}
 								}
+							}
+						case *ssa.Store:
+							if u.Val == v {
+								use = "stored for later use"
 							}
 						case *ssa.Return:
 							if _, self := nilable[fn]; !self {
@@ -245,13 +279,87 @@ func init() {
 							continue
 						}
 						n++
-						construct := FnName(fn) + "#" + shortCallee(c) + "/" + use
-						r.Cond(nonNilGuarded(ref.Block(), c), "C04.failure-results", construct, ref.Pos(), FnName(callee)+" "+why+"; its result must be nil-checked before "+use)
+						construct := FnName(fn) + "#" + abbr(Desc(v), 0) + "/" + use
+						r.Cond(nonNilGuarded(ref.Block(), v), "C04.failure-results", construct, ref.Pos(), why+"; the value must be nil-checked before it is "+use)
 					}
-				})
+				}
 			}
 			if n == 0 {
 				r.Undecided("C04.failure-results", ap, "no use of a nilable helper result found")
+			}
+
+			// errors of fallible calls on the decompression paths are not dropped:
+			// "returns a valid point or an error" fails when a failed conversion is
+			// reported as success
+			r.Rule("C04.errors", "the error of every fallible call reachable from DecompressToG1/G2 is returned or tested", 2)
+			for _, fn := range dec {
+				EachInstr(fn, func(in ssa.Instruction) {
+					c, ok := in.(*ssa.Call)
+					if !ok {
+						return
+					}
+					res := c.Call.Signature().Results()
+					if res.Len() == 0 {
+						return
+					}
+					last := res.At(res.Len() - 1).Type()
+					if nt, isN := last.(*types.Named); !isN || nt.Obj().Name() != "error" || nt.Obj().Pkg() != nil {
+						return
+					}
+					used := false
+					var errVal ssa.Value = c
+					if res.Len() > 1 {
+						errVal = nil
+						for _, ref := range *c.Referrers() {
+							if ex, ok := ref.(*ssa.Extract); ok && ex.Index == res.Len()-1 {
+								errVal = ex
+							}
+						}
+						// returned as a whole tuple (return f(x))
+						for _, ref := range *c.Referrers() {
+							if _, isRet := ref.(*ssa.Return); isRet {
+								used = true
+							}
+						}
+					}
+					if errVal != nil && errVal.Referrers() != nil {
+						for _, ref := range *errVal.Referrers() {
+							switch ref.(type) {
+							case *ssa.Return, *ssa.BinOp, *ssa.Phi, *ssa.Store, *ssa.MakeInterface:
+								used = true
+							}
+						}
+					}
+					if !used && errorExcludedAtSite(c) {
+						r.Ok("C04.errors", FnName(fn)+"#"+shortCallee(c), in.Pos(), "dropped, but the callee's only failure condition is excluded by a dominating length check at the call site")
+						return
+					}
+					r.Cond(used, "C04.errors", FnName(fn)+"#"+shortCallee(c), in.Pos(), "the error result must be returned or compared with nil; dropping it reports a failed conversion as success")
+				})
+			}
+
+			// determinism: hashing and (de)compression depend on their arguments only
+			r.Rule("C04.pure", "hash-to-point and (de)compression read no run-time-mutable package state", 3)
+			written := runtimeWrittenGlobals(r.W)
+			hp := r.MustFn("C04.pure", ap, "G1HashToPoint")
+			for _, root := range []*ssa.Function{hp, d1, d2} {
+				if root == nil {
+					continue
+				}
+				var bad []string
+				reach := ReachableIn([]*ssa.Function{root}, 8)
+				for _, f := range reach {
+					EachInstr(f, func(in ssa.Instruction) {
+						for _, op := range in.Operands(nil) {
+							if g, ok := (*op).(*ssa.Global); ok {
+								if w, isW := written[g]; isW {
+									bad = append(bad, g.Name()+" (written by "+w+")")
+								}
+							}
+						}
+					})
+				}
+				r.Cond(len(bad) == 0, "C04.pure", FnName(root)+"#globals", root.Pos(), fmt.Sprintf("%d function(s) reachable; run-time-written package variables used: %s", len(reach), strings.Join(bad, ", ")))
 			}
 		},
 	})
@@ -267,6 +375,53 @@ func init() {
 	witness(Witness{Prop: "C04", Name: "g2-ignores-missing-root", File: "pkg/altbn128/altbn128.go",
 		Old: "if y == nil {\n\t\treturn nil, errors.New(\"failed to decompress G2\")", New: "if y == nil && len(m) == 0 {\n\t\treturn nil, errors.New(\"failed to decompress G2\")",
 		Rule: "C04.failure-results"})
+}
+
+// errorExcludedAtSite: the repository callee returns a non-nil error only on
+// paths guarded by `c < len(Pk)`, and the call site is dominated by
+// `len(arg_k) ≤ c'` with c' ≤ c for a value described like the actual
+// argument (the "cannot happen" belief is backed by a check).
+func errorExcludedAtSite(c *ssa.Call) bool {
+	callee := staticCallee(c)
+	if callee == nil || callee.Blocks == nil {
+		return false
+	}
+	n := callee.Signature.Results().Len()
+	paths := ReturnPaths(callee, n-1, func(v ssa.Value) bool { return !isNilConst(v) })
+	if len(paths) == 0 {
+		return false
+	}
+	for _, p := range paths {
+		excluded := false
+		for _, g := range cmpOf(Guards(p.Ret.Block())) {
+			if !g.Strict {
+				continue
+			}
+			bound, isC := constInt(g.Lo)
+			arg := isLenOf(g.Hi)
+			if !isC || arg == nil {
+				continue
+			}
+			prm, isP := arg.(*ssa.Parameter)
+			if !isP {
+				continue
+			}
+			actual := c.Call.Args[paramIndex(prm)]
+			for _, sg := range cmpOf(Guards(c.Block())) {
+				if sg.Strict {
+					continue
+				}
+				hi, isC2 := constInt(sg.Hi)
+				if a := isLenOf(sg.Lo); a != nil && isC2 && hi <= bound && Desc(a) == Desc(actual) {
+					excluded = true
+				}
+			}
+		}
+		if !excluded {
+			return false
+		}
+	}
+	return true
 }
 
 // knownLen: statically known length of a slice value: make([]T, N) with a
